@@ -311,6 +311,13 @@ def saveSegment (c : Cls) (enc : Enc) (phoff : BitVec 64) (phentsize : BitVec 16
   let hp : Int := phoff.toInt + (Int.ofNat phentsize.toNat) * (Int.ofNat g.index)
   (os.adjust hp).write (encodePhdr c enc g)
 
+/-- `get_data()` on every section, in order -/
+def allResident (c : Cls) (tr : List Trans) : List SecBuf → LoadSt → List SecBuf → List SecBuf × LoadSt
+  | [], ls, acc => (acc.reverse, ls)
+  | b :: rest, ls, acc =>
+    let (ls, b) := secGetData c tr ls b
+    allResident c tr rest ls (b :: acc)
+
 structure SaveRes where
   obj : Obj
   os : OStream
@@ -323,6 +330,9 @@ def save (o : Obj) (os : OStream) : M SaveRes := do
   | some h =>
   if os.fail then pure { obj := o, os := os, ok := false } else
   let c := o.cls; let e := o.enc
+  -- `for (sec : sections_) sec->get_data();` : lazily loaded data is read before the layout
+  let (secs0, ls0) := allResident c o.trans o.secs { st := o.stream } []
+  let o := { o with secs := secs0, stream := ls0.st }
   let nseg := o.segs.length % 65536
   let nsec := o.secs.length % 65536
   let h := Hdr.set_phnum c e h nseg
